@@ -34,6 +34,23 @@ package h_c08
 // alias and re-derives the leg from its own entry). TTLs shown are judged per lineage: the alias records (CNAME / DNAME
 // owned outside c.p.) against the outer side, the target's records or the SOA / proof of its denial against the leg's.
 
+//
+// NAME-SERVER ADDRESSES (space "nsaddr", VERIF_C08_NSADDR=1): p. delegates the stable sibling v.p. to the single host
+// nsv.c.p. WITHOUT glue. Reaching a v.p. server therefore needs two things, learned through two lineages:
+//
+//	grant[v.p.]   the parent's referral "v.p. NS nsv.c.p." — lease as for every delegation (observedAt + min(NS, DS
+//	              TTL), min-folded with p.'s lease, 12 h ceiling)
+//	addr[server]  the binding "nsv.c.p. is at <server>" — an answer of a c.p. server, i.e. data LEARNED THROUGH c.p.'s
+//	              delegation: its deadline is the lease of the c.p. delegation whose server said so (maximum over
+//	              observations)
+//
+// A v.p. server may be contacted while the grant runs (or was observed in the same ask) AND while the address binding
+// is usable: observed in the same ask, or its deadline is > t, or the parent has not changed c.p. at all (re-resolving
+// would give the same address — the property only speaks about what happens once the parent withdraws / changes the
+// delegation). Contacting a server behind an address whose lineage has ended after the parent's change is
+// "stale-ns-address-used". Replies for v.p. names from the answer cache are judged against v.p.'s own lineage only
+// (its delegation is intact), which is why two names exist: only fresh resolutions show which server is contacted.
+
 import (
 	"fmt"
 	"sort"
@@ -68,10 +85,15 @@ type vkRef struct {
 	sub     map[string]*vkDatum
 	neg     map[string]*vkDatum // zone|server -> negative answers learned from that server (validated denials may be re-used for other names)
 	changed time.Time           // instant of the parent's change (zero = none)
+
+	grant    map[string]time.Time // glue-less delegation (v.p.) -> deadline of the parent's referral naming the NS host
+	addr     map[string]*vkDatum  // v.p. server -> deadline of the binding "nsv.c.p. is at <server>" (lease of the c.p. delegation it was learned through)
+	lastAddr string               // server of the binding observed last
 }
 
 func vkNewRef(w *vkWorld) *vkRef {
-	return &vkRef{w: w, lease: map[string]time.Time{}, first: map[string]time.Time{}, data: map[string]*vkDatum{}, sub: map[string]*vkDatum{}, neg: map[string]*vkDatum{}}
+	return &vkRef{w: w, lease: map[string]time.Time{}, first: map[string]time.Time{}, data: map[string]*vkDatum{}, sub: map[string]*vkDatum{}, neg: map[string]*vkDatum{},
+		grant: map[string]time.Time{}, addr: map[string]*vkDatum{}}
 }
 
 func vkDKey(name string, t uint16, cd bool) string {
@@ -93,8 +115,10 @@ func vkMinT(a, b time.Time) time.Time {
 // reference. validating: the resolution validates (DNSSEC on and CD=0), so the
 // DS TTL bounds the lease. It returns the lease under which the window's final
 // answer was learned and a violation text ("" = none).
-func (r *vkRef) window(ex []vkExchange, t0, t1 time.Time, validating bool) (time.Time, string) {
+func (r *vkRef) window(ex []vkExchange, t0, t1 time.Time, validating bool, side func(vkExchange) bool) (time.Time, string, string) {
 	fresh := map[string]time.Time{}
+	freshGrant := map[string]time.Time{}
+	freshAddr := map[string]time.Time{}
 	lookup := func(zone, server string) (time.Time, bool, bool) { // deadline, known, fresh
 		if zone == "." {
 			return vkForever, true, true
@@ -110,7 +134,44 @@ func (r *vkRef) window(ex []vkExchange, t0, t1 time.Time, validating bool) (time
 	for j, e := range ex {
 		zone := vkServerZone(e.Server)
 		d, known, isFresh := lookup(zone, e.Server)
-		if zone != "." {
+		if zone == vkZoneV {
+			// a server of the glue-less delegation: the parent's grant (NS side) ...
+			g, grantFresh := freshGrant[zone]
+			if !grantFresh {
+				var ok bool
+				if g, ok = r.grant[zone]; !ok || !g.After(t0) {
+					what := "was never granted by the parent"
+					if ok {
+						what = "ended at " + r.w.rel(g)
+					}
+					return pathLease, fmt.Sprintf("delegation %s -> server %s used from memory at %s although its reference lease %s; exchange #%d %s of [%s]",
+						zone, e.Server, r.w.rel(t0), what, j, e, vkExStr(ex)), "stale-delegation-used"
+				}
+			}
+			// ... and the address of its name-server host (data learned through c.p.'s delegation)
+			if _, ok := freshAddr[e.Server]; !ok {
+				a := r.addr[e.Server]
+				var why string
+				switch {
+				case a == nil:
+					why = "no c.p. server was ever seen publishing that address for " + vkNSV
+				case !r.changed.IsZero() && !a.deadline.After(t0):
+					why = fmt.Sprintf("that address of %s was learned through c.p.'s delegation under a lease that ended at %s (%s) and the parent %s c.p. at %s",
+						vkNSV, r.w.rel(a.deadline), a.what, map[int]string{vkPhaseWithdrawn: "withdrew", vkPhaseRepointed: "re-pointed"}[r.w.phase], r.w.rel(r.changed))
+				}
+				if why != "" {
+					how := "the delegation entry of v.p. kept from an earlier referral"
+					class := "stale-ns-address-used/cached-delegation"
+					if grantFresh {
+						how, class = "a referral for v.p. observed in this very ask (no glue, "+vkNSV+" not re-resolved)", "stale-ns-address-used/fresh-referral"
+					}
+					return pathLease, fmt.Sprintf("server %s contacted for %s at %s through %s: %s; exchange #%d %s of [%s]",
+						e.Server, zone, r.w.rel(t0), how, why, j, e, vkExStr(ex)), class
+				}
+			}
+			d = g
+			pathLease = vkMinT(pathLease, d)
+		} else if zone != "." {
 			// (d)/(b): a delegation is used from memory only while its lease runs. The instant judged is the START of
 			// the window: a resolution in flight may finish with the servers it holds.
 			if !isFresh && (!known || !d.After(t0)) {
@@ -119,9 +180,40 @@ func (r *vkRef) window(ex []vkExchange, t0, t1 time.Time, validating bool) (time
 					what = fmt.Sprintf("ended at %s (first grant ended at %s)", r.w.rel(d), r.w.rel(r.first[zone+"|"+e.Server]))
 				}
 				return pathLease, fmt.Sprintf("delegation %s -> server %s used from memory at %s although its reference lease %s; exchange #%d %s of [%s]",
-					zone, e.Server, r.w.rel(t0), what, j, e, vkExStr(ex))
+					zone, e.Server, r.w.rel(t0), what, j, e, vkExStr(ex)), "stale-delegation-used"
 			}
-			pathLease = vkMinT(pathLease, d)
+			if side == nil || !side(e) {
+				pathLease = vkMinT(pathLease, d)
+			}
+		}
+		if e.Referral != "" && e.NSHost != "" && e.Target == "" {
+			// glue-less referral: the grant of the delegation (NS side); which server it leads to is the address binding's matter
+			obs := t1
+			if j+1 < len(ex) {
+				obs = ex[j+1].At
+			}
+			ttl := e.NSTTL
+			if validating && e.HasDS && e.DSTTL < ttl {
+				ttl = e.DSTTL
+			}
+			cand := obs.Add(time.Duration(ttl) * time.Second)
+			if c := obs.Add(vkCeiling); cand.After(c) {
+				cand = c
+			}
+			cand = vkMinT(cand, d)
+			if old, ok := freshGrant[e.Referral]; !ok || cand.After(old) {
+				freshGrant[e.Referral] = cand
+			}
+		}
+		if e.AddrOf != "" {
+			// "nsv.c.p. is at <server>": learned through the c.p. delegation whose server was asked
+			if old, ok := freshAddr[e.AddrOf]; !ok || d.After(old) {
+				freshAddr[e.AddrOf] = d
+			}
+			if a := r.addr[e.AddrOf]; a == nil || d.After(a.deadline) {
+				r.addr[e.AddrOf] = &vkDatum{deadline: d, ttlEnd: t1.Add(vkRecTTL * time.Second), what: e.String() + " at " + r.w.rel(e.At)}
+			}
+			r.lastAddr = e.AddrOf
 		}
 		if e.Referral != "" && e.Target != "" {
 			obs := t1
@@ -157,7 +249,12 @@ func (r *vkRef) window(ex []vkExchange, t0, t1 time.Time, validating bool) (time
 			r.first[k] = d
 		}
 	}
-	return pathLease, ""
+	for k, d := range freshGrant {
+		if old, ok := r.grant[k]; !ok || d.After(old) {
+			r.grant[k] = d
+		}
+	}
+	return pathLease, "", ""
 }
 
 func (r *vkRef) note(m map[string]*vkDatum, k string, deadline, now time.Time, what string) {
@@ -226,6 +323,14 @@ var vkAliasQs = []vkEv{
 	{K: "q", Name: "late.alias.p.", Type: dns.TypeA}, // DNAME -> late.c.p.: NXDOMAIN at the old child, positive marker at the new one
 	{K: "q", Name: "cn.p.", Type: dns.TypeA},         // CNAME -> www.c.p.
 	{K: "q", Name: "cnx.p.", Type: dns.TypeA},        // CNAME -> late.c.p.
+}
+
+// vkNSAddrQs: two names of the stable sibling v.p. (the second so that the answer cache cannot serve it: what is
+// tested is which SERVER a fresh resolution contacts) and the sub-question the resolver asks for its name-server host.
+var vkNSAddrQs = []vkEv{
+	{K: "q", Name: "www.v.p.", Type: dns.TypeA},
+	{K: "q", Name: "w2.v.p.", Type: dns.TypeA},
+	{K: "q", Name: vkNSV, Type: dns.TypeA}, // digest only (never asked by the client in space "nsaddr")
 }
 
 // vkLegQ is the direct question for the denied leg (so that a composed reply can find its leg in memory).
@@ -388,6 +493,10 @@ func vkContent(ev vkEv, m *dns.Msg) string {
 				return "old"
 			case vkNewA, vkNewLate:
 				return "new"
+			case vkOldVA:
+				return "vold" // v.p. as served behind the address the old c.p. server published
+			case vkNewVA:
+				return "vnew"
 			}
 		case *dns.NS:
 			switch zonemodel.Canon(x.Ns) {
@@ -462,9 +571,15 @@ func (w *vkWorld) query(ev vkEv) vkStep {
 	if w.key.prefetch && len(ex) > 0 && pre.Found && pre.Remaining > 0 {
 		fromMemory, background = true, true
 	}
-	learned, viol := w.ref.window(ex, t0, t1, validating)
+	// a question below v.p.: the exchanges with c.p.'s servers belong to the side resolution of the name-server host's
+	// address — the client-visible answer is v.p.'s data, bounded by v.p.'s own lineage only (permissive)
+	var side func(vkExchange) bool
+	if dns.IsSubDomain(vkZoneV, zonemodel.Canon(ev.Name)) {
+		side = func(e vkExchange) bool { z := vkServerZone(e.Server); return z == vkZoneC || z == vkZoneG }
+	}
+	learned, viol, vclass := w.ref.window(ex, t0, t1, validating, side)
 	if viol != "" {
-		st.Viol, st.Class = viol, "stale-delegation-used"
+		st.Viol, st.Class = viol, vclass
 		return st
 	}
 	m := r.Msg
@@ -672,7 +787,25 @@ func (w *vkWorld) digest() (string, bool) {
 			}
 		}
 	}
-	for _, z := range []string{vkZoneP, vkZoneC, vkZoneG} {
+	for k, d := range w.ref.grant {
+		if rem := d.Sub(now); rem > 0 {
+			parts = append(parts, fmt.Sprintf("G:%s=%d", k, vkSecs(rem)))
+		}
+	}
+	for k, d := range w.ref.addr {
+		// a binding whose lineage has ended stays part of the state: an implementation may still hold the address
+		rem := 0
+		if x := d.deadline.Sub(now); x > 0 {
+			rem = vkSecs(x)
+		} else {
+			nontrivial = true // the lease it was learned under has ended while its own TTL still runs
+		}
+		parts = append(parts, fmt.Sprintf("A:%s=%d", k, rem))
+	}
+	if w.ref.lastAddr != "" {
+		parts = append(parts, "A-last="+w.ref.lastAddr)
+	}
+	for _, z := range []string{vkZoneP, vkZoneC, vkZoneG, vkZoneV} {
 		for _, cd := range []bool{false, true} {
 			if d := w.deleg(z, cd); d.Found {
 				if rem := d.ExpiresAt.Sub(now); rem > 0 {
@@ -681,7 +814,7 @@ func (w *vkWorld) digest() (string, bool) {
 			}
 		}
 	}
-	for _, q := range append(append(append(append([]vkEv{}, vkAlphabetQs...), vkExtraQs...), vkAliasQs...), vkLegQ) {
+	for _, q := range append(append(append(append(append([]vkEv{}, vkAlphabetQs...), vkExtraQs...), vkAliasQs...), vkLegQ), vkNSAddrQs...) {
 		for _, cd := range []bool{false, true} {
 			e := cache.VerifC08Peek(w.pl.Cache(), dns.Question{Name: q.Name, Qtype: q.Type, Qclass: dns.ClassINET}, cd, now)
 			if e.Found && e.Remaining > 0 {
@@ -689,7 +822,7 @@ func (w *vkWorld) digest() (string, bool) {
 			}
 		}
 	}
-	for _, h := range []string{vkNSB, vkGhost} {
+	for _, h := range []string{vkNSB, vkGhost, vkNSV} {
 		if resolver.VerifC08Glue(w.pl.Resolver(), h) {
 			parts = append(parts, "impl-glue:"+h)
 		}
